@@ -257,11 +257,34 @@ func c07VersionStress(rng *Rng, clients, perClient int) {
 			}
 		}(c)
 	}
+	// readers of every kind run against the storm: listings, version listings, reads, bucket
+	// metadata; they must all be answered (a reader that re-enters a lock deadlocks with a writer)
+	stop := make(chan struct{})
+	var rwg sync.WaitGroup
+	for _, path := range []string{"/" + b + "?versions", "/" + b, "/" + b + "/hot", "/" + b + "?versioning", "/", "/" + b + "?uploads", "/" + b + "?versions&prefix=k&max-keys=2"} {
+		rwg.Add(1)
+		go func(path string) {
+			defer rwg.Done()
+			<-start
+			for {
+				select {
+				case <-stop:
+					return
+				default:
+				}
+				r := do(s.h, Req{Method: "GET", Path: path})
+				if r.Panic != "" || r.Status >= 500 {
+					emit("c07", "BAD", hs(fmt.Sprintf("GET %s during simultaneous versioned PUTs answers %d %s", path, r.Status, r.Panic)))
+					return
+				}
+			}
+		}(path)
+	}
 	close(start)
 	done := make(chan struct{})
-	go func() { wg.Wait(); close(done) }()
+	go func() { wg.Wait(); close(stop); rwg.Wait(); close(done) }()
 	if !waitOr(done, 30*time.Second) {
-		emit("c07", "HANG", hs("simultaneous versioned PUTs did not complete"))
+		emit("c07", "HANG", hs("simultaneous versioned PUTs and listings did not complete (deadlock)"))
 		return
 	}
 	seen := map[string]string{}
